@@ -35,7 +35,7 @@ def load_known(prop):
     path = os.path.join(HERE, "known_findings.json")
     with open(path) as fh:
         data = json.load(fh)
-    return [e for e in data["findings"] if e["property"] == prop]
+    return [e for e in data["findings"] if e["property"] == prop or prop in e.get("shared_with", [])]
 
 
 def run_worker(modname, inst, excluded, witness):
@@ -173,7 +173,9 @@ def main():
         concrete_runs += 1
         if e["status"] == "known":
             if res.get("ok") is False:
-                known_lines.append("KNOWN-FINDING: property=%s %s [%s]" % (prop, e["what"], e["id"]))
+                if e["property"] == prop:
+                    known_lines.append("KNOWN-FINDING: property=%s %s [%s]" % (prop, e["what"], e["id"]))
+                # (a finding of another property whose harness this check re-uses: region excluded, line printed there)
                 if e.get("region"):
                     excluded.add(e["region"])
             # witness no longer fails: nothing excluded, nothing printed
@@ -186,6 +188,28 @@ def main():
                 violations.append((path, "regression of fixed finding %s: %s" % (e["id"], e["what"])))
     for line in known_lines:
         print(line)
+
+    # ---- 1b. finite data the property quantifies over (e.g. every table entry): concrete replays
+    extra_n = 0
+    if hasattr(mod, "extra_concrete_cases"):
+        bad = 0
+        for (efn, eparams, eargs) in mod.extra_concrete_cases():
+            with tracer:
+                res = safe_concrete(mod, efn, eparams, eargs)
+            concrete_runs += 1
+            extra_n += 1
+            if res.get("ok") is False:
+                region = res.get("known_region")
+                if region is not None and region in excluded:
+                    continue
+                bad += 1
+                if bad <= 5:
+                    path = os.path.join(REPLAYS, "%s-data-%d.json" % (prop, bad))
+                    with open(path, "w") as fh:
+                        json.dump({"property": prop, "fn": efn, "params": eparams, "args": eargs, "result": res}, fh, indent=1, default=str)
+                    violations.append((path, "table/data case: %s" % json.dumps(res, default=str)[:300]))
+            elif res.get("harness_error"):
+                problems.append("data case %r: %s" % (eargs, res.get("note")))
 
     # ---- 2. symbolic instances + reachability twins
     insts = mod.instances(tier, seed)
@@ -207,6 +231,7 @@ def main():
         wit.extend(take)
     jobs = [(dict(i, timeout=min(i["timeout"], 60)), True) for i in wit] + jobs
 
+    jobs.sort(key=lambda j: -j[0].get("cost", 1))      # expensive instances first (better packing on the cores)
     results = []
     with cf.ThreadPoolExecutor(NCPU) as ex:
         futs = [ex.submit(run_worker, modname, i, excluded, w) for i, w in jobs]
@@ -332,6 +357,7 @@ def main():
             "bounds": getattr(mod, "BOUNDS", ""),
             "known_regions_excluded": sorted(excluded),
             "selftest_cases": selftest_n,
+            "data_cases_replayed": extra_n,
             "instances": inst_records,
             "repo": repo_file,
             "problems": problems[:20],
